@@ -164,9 +164,10 @@ _MODE = threading.local()      # chains are evaluated by a thread pool
 def missing_value(co: Codec, cn: Codec, t):
     if getattr(_MODE, "via_source_model", False):
         tt = cn.res(t)
-        if isinstance(tt, N) and not tt.args:
+        if isinstance(tt, N):
             try:
-                src = co.res(co.fq(N(tt.name)))        # the type may have been renamed and kept as an alias
+                # the type may have been renamed and kept as an alias; a generic is instantiated with the same-named arguments of the source model
+                src = co.res(co.fq(N(tt.name, tt.args)))
                 if isinstance(src, N):
                     d, _ = co.env.lookup(src)
                     if isinstance(d, Rec):
